@@ -102,14 +102,22 @@ def addBody (s : Svc) (p cid : String) (v : PodGet) (pick : List Ent) : Svc × R
     else (s, .err)                             -- the model rejects what was observed
   | _ => (s, .err)
 
+/-- the pod's record names this pool entry -/
+def recordedFor (s : Svc) (p : String) (e : Ent) : Bool :=
+  match dbGet s.db p with
+  | some r => r.eni == e.eni && r.ips.contains e.ip
+  | none => false
+
 /-- an ADD that fails after the pool served it (cancelled request): `back` says whether the addresses this
     request bound were handed back (`commit` on a done context / the rollback release) or stayed bound.
-    An address the pod already held before the request stays the pod's either way. -/
+    An address the pod's record names stays the pod's either way. -/
 def addFailBody (s : Svc) (p : String) (pick : List Ent) (back : Bool) : Svc × Reply :=
   if pick = [] then (s, .err)
   else if pickOK s p pick then
     let eni := (pick.head?.map (·.eni)).getD ""
-    let fresh := (pick.filter (·.owner = none)).map (·.ip)
+    -- AllocIP rolls back what a failed Allocate returned, except what the pod's record names: an entry the pool
+    -- already counted as the pod's without a record (left by an earlier failed request) is handed back as well
+    let fresh := (pick.filter fun e => e.owner = none || !(recordedFor s p e)).map (·.ip)
     ({ s with pool := if back then release s.pool p eni fresh else claim s.pool p eni (pick.map (·.ip)) }, .err)
   else (s, .err)
 
